@@ -21,6 +21,7 @@ if COVERAGE:
     TARGET = os.path.join(BUILD, 'cov')
     os.environ.setdefault('LLVM_PROFILE_FILE', os.path.join(BUILD, 'cov', 'prof', 'rbp-%8m.profraw'))
 BIN = os.path.join(TARGET, 'debug', 'rusty-blockparser')
+SHORTIO = os.path.join(BUILD, 'shortio.so')
 BIN_RELEASE = os.path.join(TARGET, 'release', 'rusty-blockparser')      # what `cargo build --release` / `cargo install` ship
 WORKROOT = os.path.join(VERIF, '.work')
 SPEC = os.path.join(VERIF, 'spec')
@@ -62,6 +63,18 @@ def build():
             if r.returncode != 0:
                 raise ToolError('cargo build --release failed:\n' + r.stdout[-4000:])
         # private copy so that a concurrent rebuild cannot swap the file under a running check
+        # LD_PRELOAD shim for short reads / writes (tools/shortio.c); without a C compiler the dimension is simply not varied
+        so = os.path.join(BUILD, 'shortio.so')
+        src = os.path.join(VERIF, 'tools', 'shortio.c')
+        if not os.path.exists(so) or os.path.getmtime(so) < os.path.getmtime(src):
+            for cc in ('gcc', 'cc', 'clang'):
+                try:
+                    if subprocess.run([cc, '-O1', '-shared', '-fPIC', '-o', so + '.new', src, '-ldl'], stdout=subprocess.PIPE,
+                                      stderr=subprocess.STDOUT, timeout=120).returncode == 0:
+                        os.replace(so + '.new', so)
+                        break
+                except (OSError, subprocess.SubprocessError):
+                    pass
     _built = True
     return BIN
 
@@ -290,6 +303,10 @@ def run_parser(datadir, cb, dump=None, coin=None, start=None, end=None, verify=F
         e['RBP_VERIF_SKIP'] = skip
     if bare:
         e = {k: v for k, v in e.items() if k.startswith('RBP_VERIF_') or k in ('RUST_BACKTRACE', 'RAYON_NUM_THREADS')}
+    if os.environ.get('RBP_VERIF_NO_AMBIENT') is None and amb % 4 == 2 and os.path.exists(SHORTIO):
+        # read() / write() on blk files, xor.dat and the CSV outputs transfer fewer bytes than asked for (POSIX allows it)
+        e['LD_PRELOAD'] = SHORTIO
+        e['RBP_SHORTIO'] = str(amb)
     if env:
         e.update(env)
     ids = {}
